@@ -1020,3 +1020,167 @@ Op Gen::anyOp(int scale, int forcedFn) {
     op.fn = fn;
     return op;
 }
+
+// ------------------------------------------------------------- catalogue ----
+namespace {
+const int64_t CAT_NBR = 16 * 12 * 4, CAT_DISK = 16 * 12 * 2 * 2, CAT_COMPACT = 15 * 6,
+              CAT_POLY = 10 * 12 * 7;
+H3Index atDistance(H3Index origin, int d) {
+    std::vector<H3Index> disk = refDisk(origin, d);
+    for (auto c : disk) {
+        int64_t dist = 0;
+        if (REF.gridDistance(origin, c, &dist) == E_SUCCESS && dist == d) return c;
+    }
+    // gridDistance can fail across pentagons: take any cell that is not in the (d-1)-disk
+    std::vector<H3Index> inner = refDisk(origin, d - 1);
+    for (auto c : disk)
+        if (std::find(inner.begin(), inner.end(), c) == inner.end()) return c;
+    return origin;
+}
+void ngonAround(LatLng c, double R, int n, double rot, std::vector<LatLng> &out) {
+    double cosLat = std::max(0.05, cos(c.lat));
+    for (int i = 0; i < n; i++) {
+        LatLng g;
+        g.lat = c.lat + R * sin(rot + 2 * PI * i / n);
+        if (g.lat > PI / 2) g.lat = PI / 2;
+        if (g.lat < -PI / 2) g.lat = -PI / 2;
+        g.lng = wrapLng(c.lng + R * cos(rot + 2 * PI * i / n) / cosLat);
+        out.push_back(g);
+    }
+}
+}  // namespace
+
+int64_t Gen::catalogueC17Size() { return CAT_NBR + CAT_DISK + CAT_COMPACT + CAT_POLY; }
+
+bool Gen::catalogueC17(int64_t idx, Op &op) {
+    op = Op();
+    if (idx < 0) return false;
+    if (idx < CAT_NBR) {
+        int v = (int)(idx % 4), p = (int)((idx / 4) % 12), res = (int)(idx / 48);
+        H3Index pent = PENT[res][p];
+        H3Index nbr = atDistance(pent, 1);
+        op.fn = FN_areNeighborCells;
+        switch (v) {
+            case 0:
+                op.cells = {pent, nbr};
+                break;
+            case 1:
+                op.cells = {nbr, pent};
+                break;
+            case 2:
+                op.cells = {pent, atDistance(pent, 2)};
+                break;
+            default:
+                op.cells = {nbr, atDistance(nbr, 1)};
+        }
+        op.tag = "catalogue:pentagon-pairs";
+        return true;
+    }
+    idx -= CAT_NBR;
+    if (idx < CAT_DISK) {
+        int f = (int)(idx % 2), kk = (int)((idx / 2) % 2), p = (int)((idx / 4) % 12), res = (int)(idx / 48);
+        H3Index pent = PENT[res][p];
+        op.fn = f ? FN_gridDiskDistances : FN_gridDisk;
+        if (kk == 0) {
+            op.cells = {pent};
+            op.ints = {1};
+        } else {
+            op.cells = {atDistance(pent, 2)};
+            op.ints = {3};
+        }
+        if (f) op.ints.push_back(0);
+        op.tag = "catalogue:pentagon-disks";
+        return true;
+    }
+    idx -= CAT_DISK;
+    if (idx < CAT_COMPACT) {
+        int v = (int)(idx % 6), R = 1 + (int)(idx / 6);
+        int d = std::min(R, 3);
+        H3Index pparent = PENT[R - d][R % 12];
+        H3Index hparent = atDistance(PENT[R - d][(R + 5) % 12], 1);
+        op.fn = FN_compactCells;
+        std::vector<H3Index> pc = refChildren(pparent, R), hc = refChildren(hparent, R);
+        switch (v) {
+            case 0:
+                op.cells = pc;
+                break;
+            case 1:
+                op.cells = hc;
+                break;
+            case 2:
+                op.cells = pc;
+                op.cells.push_back(pc[pc.size() / 2]);
+                break;
+            case 3:
+                op.cells = hc;
+                op.cells[hc.size() / 3] |= (3ULL << 56);
+                break;
+            case 4:
+                op.cells = hc;
+                op.cells[hc.size() / 2] = PENT[(R + 1) % 16][0];
+                break;
+            default: {
+                int d2 = std::min(R, 2);
+                op.cells = refChildren(PENT[R - d2][3], R);
+                std::vector<H3Index> o = refChildren(atDistance(PENT[R - d2][7], 1), R);
+                op.cells.insert(op.cells.end(), o.begin(), o.end());
+            }
+        }
+        op.tag = "catalogue:compaction";
+        return true;
+    }
+    idx -= CAT_COMPACT;
+    if (idx < CAT_POLY) {
+        int v = (int)(idx % 7), p = (int)((idx / 7) % 12), res = (int)(idx / 84);
+        LatLng c = {0, 0};
+        REF.cellToLatLng(PENT[res][p], &c);
+        double R = 1.6 * edgeLenRads(res);
+        if (R > 0.6) R = 0.6;
+        std::vector<LatLng> outer;
+        ngonAround(c, R, 6, 0.3 + 0.1 * p, outer);
+        op.loops.push_back(outer);
+        if (res & 1) {
+            std::vector<LatLng> hole;
+            ngonAround(c, R * 0.2, 4, 0.1, hole);
+            op.loops.push_back(hole);
+        }
+        op.tag = "catalogue:pentagon-polygons";
+        if (v == 0) {
+            op.fn = FN_polygonToCells;
+            op.ints = {res, 0};
+        } else if (v == 6) {
+            op.fn = FN_maxPolygonToCellsSizeExperimental;
+            op.ints = {res, 0};
+        } else {
+            op.fn = FN_polygonToCellsExperimental;
+            uint32_t flags = v <= 4 ? (uint32_t)(v - 1) : 0;
+            op.ints = {res, (int64_t)flags};
+            Op sz = op;
+            sz.fn = FN_maxPolygonToCellsSizeExperimental;
+            Result rs = execOp(REF, sz, ExecOpts());
+            int64_t cap = 16;
+            if (rs.status == CALL_RETURNED && rs.rc == E_SUCCESS && rs.out.size() >= 8)
+                memcpy(&cap, rs.out.data(), 8);
+            if (v == 5) cap = cap / 3;
+            op.ints.push_back(cap);
+        }
+        return true;
+    }
+    return false;
+}
+
+int64_t Gen::catalogueC16Size() { return 16 * 12 * 3; }
+bool Gen::catalogueC16(int64_t idx, Op &op) {
+    op = Op();
+    if (idx < 0 || idx >= catalogueC16Size()) return false;
+    int v = (int)(idx % 3), p = (int)((idx / 3) % 12), res = (int)(idx / 36);
+    H3Index pent = PENT[res][p];
+    op.fn = FN_cellsToLinkedMultiPolygon;
+    std::vector<H3Index> disk = refDisk(pent, v == 2 ? 2 : 1);
+    for (auto c : disk) {
+        if (v >= 1 && c == pent) continue;  // ring around the pentagon: one hole
+        op.cells.push_back(c);
+    }
+    op.tag = v == 0 ? "catalogue:pentagon-disk" : "catalogue:pentagon-ring";
+    return true;
+}
